@@ -79,6 +79,7 @@ StreamTable ==
   <<"CLOSED", "RECV_DATA">> :> [fn |-> "recv_on_closed_stream", to |-> "CLOSED"] @@
   <<"CLOSED", "RECV_WINDOW_UPDATE">> :> [fn |-> "none", to |-> "CLOSED"] @@
   <<"CLOSED", "RECV_END_STREAM">> :> [fn |-> "none", to |-> "CLOSED"] @@
+  <<"CLOSED", "RECV_INFORMATIONAL_HEADERS">> :> [fn |-> "recv_on_closed_stream", to |-> "CLOSED"] @@
   <<"CLOSED", "RECV_ALTERNATIVE_SERVICE">> :> [fn |-> "none", to |-> "CLOSED"]
 
 ConnTable ==
